@@ -8,7 +8,7 @@ LAB=${SEEDLAB:-/tmp/seedlab}; VERIF="$(cd "$(dirname "$0")/.." && pwd)"
 export CARGO_NET_OFFLINE=true GMP_MPFR_SYS_CACHE=$VERIF/.cache/gmp-mpfr-sys
 sync_engine() {
   mkdir -p $LAB/out/evidence $LAB/out/replays
-  rsync -a --delete --exclude target $VERIF/engine/ $LAB/engine/
+  rsync -a --delete --exclude target ${ENGINE_SRC:-$VERIF/engine}/ $LAB/engine/
   sed -i "s#path = \"/repo\"#path = \"$LAB/repo\"#" $LAB/engine/zkmc/Cargo.toml $LAB/engine/clmc/Cargo.toml
   cp $VERIF/known_findings.json $LAB/out/; ln -sfn $VERIF/scripts $LAB/out/scripts
 }
